@@ -24,7 +24,7 @@ def gen_params(sc, **kw):
 
 def files(sc, extra=(), **params):
     fs = [os.path.join(HDIR, f) for f in sorted(os.listdir(HDIR)) if f.startswith('zz_verif_') and f.endswith('.go') and not f.endswith('_test.go')]
-    defaults = dict(lrK=6, lrEvalK=6, lrFailK=5, lrTreeK=6)
+    defaults = dict(lrK=6, lrEvalK=6, lrFailK=5, lrTreeK=6, lrBodyK=5)
     defaults.update(params)
     fs.append(gen_params(sc, **defaults))
     fs.extend(extra)
@@ -91,7 +91,7 @@ def ast_files(sc, **params):
     extra[os.path.join(REPO, PKG_REL, 'zz_verif_new.go')] = nn
     path = sc.path('zz_verif_ast_params.go')
     with open(path, 'w') as f:
-        f.write('//go:build verif\n\npackage ast\n\nconst astK = %d\n' % params.get('astK', 6))
+        f.write('//go:build verif\n\npackage ast\n\nconst astK = %d\nconst astBodyK = %d\n' % (params.get('astK', 6), params.get('astBodyK', 5)))
     afs = [os.path.join(AST_HDIR, f) for f in sorted(os.listdir(AST_HDIR)) if f.startswith('zz_verif_') and f.endswith('.go') and not f.endswith('_test.go')]
     afs.append(path)
     return afs, extra
